@@ -425,6 +425,15 @@ def check_span_shapes(mm, rep):
         return
     if not rep.anchor("R16.3", 1 in conds and wild is not None, "the one-span case and a catch-all in the span-count match"):
         return
+    # an encoding without spans says nothing about the slot: meeting dynamic bytes / an array it must give way, not conflict
+    rep.oblige(
+        conds.get(0, wild) is True,
+        "R16.3",
+        "shape-closure:empty-is-neutral",
+        arm.where(),
+        "a packed encoding with no spans no longer gives way to dynamic bytes / a dynamic array (the zero-span case is not the accepting one): evidence that says nothing turns compatible evidence into a conflict, and does so only when it is met after the array",
+        sample={"rule": "R16.3", "zero_span_case": "bytes" if conds.get(0, wild) is True else "conflict / conditional"},
+    )
     universe = sorted((o, s) for o in consts["offset"] for s in consts["size"])
 
     def accepted(k, tup):
